@@ -45,6 +45,7 @@ LEVEL["decided"] += " (R20.5) applies to every function that is handed an iterab
 LEVEL["decided"] += " R20.5 also: a tool without a documented window never hands its source to one that has one (batched, nlargest, nsmallest, tee); (R20.8) the tee object refers to its children's buffers only through the list a finished child removes its buffer from."
 LEVEL["decided"] += ' (R20.9) a container a streaming tool creates is not filled by a library helper / closure it is handed to.'
 LEVEL["technique"] += '; evaluated tee construction (heap reachability of the buffers)'
+LEVEL["decided"] += " R20.1 also reads private generators that a streaming tool iterates, plain loops over a user's synchronous iterable, and await_each / any_iter; a deque created with a literal maxlen is a window; replacing an element of a list is not growth."
 
 STREAMING = c01.PASS_THROUGH + c01.TRANSFORMING + [
     "builtins.all", "builtins.any", "builtins.sum", "builtins._min_max", "functools.reduce", "heapq._largest",
